@@ -472,6 +472,19 @@ def run_sample(root, preamble, lem, tag, log):
 
 
 # ------------------------------------------------------------------ main loop
+def signature(text):
+    """parameter types, and the names of the parameters that are fields of self, of a generated definition"""
+    head = text.split(":=", 1)[0]
+    groups = re.findall(r"\(([^():]*) : ([^()]*(?:\([^()]*\)[^()]*)*)\)", head)
+    tys, fields = [], []
+    for ns, ty in groups:
+        for n in ns.split():
+            tys.append(ty.strip())
+            if n.startswith("self_") and n != "self_":
+                fields.append(n)
+    return tys, fields
+
+
 def changed_functions(order_texts, pinned):
     return set(n for n, t in order_texts.items() if n not in pinned or pinned[n][1].strip() != t.strip())
 
@@ -569,6 +582,15 @@ def run(repo, root, log, tag=None):
         if not blame:
             res.update(ok=False, detail="SrcFunTie.v lemma %s fails although every function it mentions has its pinned text: %s" % (lem["name"], err))
             break
+        resig = [f for f in blame if signature(texts[f]) != signature(pinned[f][1])]
+        if resig:
+            # the data the function works on is represented differently (other fields of self, other parameter
+            # types): its values cannot be compared with the model argument by argument
+            res["not_comparable"].append({"lemma": lem["name"], "functions": blame, "detail": "signature of %s changed: %s -> %s" % (
+                resig[0], signature(pinned[resig[0]][1]), signature(texts[resig[0]]))})
+            for f in blame:
+                use_pinned[f] = "signature changed (representation of the data); tie lemma %s not applicable" % lem["name"]
+            continue
         s = run_sample(root, lem["preamble"], lem, tag, log)
         if s.get("error"):
             # the two sides cannot be evaluated against each other (a changed signature or type, e.g. an enum turned
